@@ -366,7 +366,11 @@ func (w *writer) ReopenReader() (*reader, int64, int64) {""")]),
 	}""")]),
  ("GetByTime: errors.Is chain instead of switch", [("log.go", """		switch msg, err := rdr.GetByTime(ts, tctx); err {
 		case nil:
-			return msg, nil
+			if i == 0 || msg.Time.UnixMicro() != ts {
+				return msg, nil
+			}
+			// exact match, but the segment before can end with messages of that same time
+			found, exact = msg, true
 		case index.ErrTimeIndexEmpty:
 			// only the head can be empty, the segment before it is the last one with messages
 			if i == 0 {
@@ -379,6 +383,9 @@ func (w *writer) ReopenReader() (*reader, int64, int64) {""")]),
 				return rdr.Get(message.OffsetOldest)
 			}
 		case index.ErrTimeAfterEnd:
+			if exact {
+				return found, nil
+			}
 			// time is between end of this and begin next
 			if i < len(readers)-1 {
 				nextRdr := readers[i+1]
@@ -389,9 +396,11 @@ func (w *writer) ReopenReader() (*reader, int64, int64) {""")]),
 			return message.Invalid, err
 		}""", """		msg, err := rdr.GetByTime(ts, tctx)
 		if err == nil {
-			return msg, nil
-		}
-		if errors.Is(err, index.ErrTimeIndexEmpty) {
+			if i == 0 || msg.Time.UnixMicro() != ts {
+				return msg, nil
+			}
+			found, exact = msg, true
+		} else if errors.Is(err, index.ErrTimeIndexEmpty) {
 			if i == 0 {
 				return message.Invalid, err
 			}
@@ -401,6 +410,9 @@ func (w *writer) ReopenReader() (*reader, int64, int64) {""")]),
 				return rdr.Get(message.OffsetOldest)
 			}
 		} else if errors.Is(err, index.ErrTimeAfterEnd) {
+			if exact {
+				return found, nil
+			}
 			if i < len(readers)-1 {
 				return readers[i+1].Get(message.OffsetOldest)
 			}
